@@ -9,11 +9,15 @@ CONSTANTS
   MaxP <- MCMaxP
   Ops <- MCOps
   Shipped <- MCShipped
+  Seeds <- MCSeeds
+  Foreign <- MCForeign
+  QKinds <- MCQKinds
 INIT Init
 NEXT MCNext
 VIEW View
 ACTION_CONSTRAINT Export
 INVARIANT ExportInit
+INVARIANT ExportSeeds
 INVARIANT C01_DimConsistent
 INVARIANT C01_ResultDim
 INVARIANT C02_Canonical
